@@ -15,7 +15,7 @@ contract(SOL + "growing_degree_day.py", "growing_degree_day",
 # ----------------------------------------------------------------------------- record classes used below
 declare_fields("Crop", default="Real",
                p_up=ARR("Real", 4), p_lo=ARR("Real", 4), fshape_w=ARR("Real", 4),
-               PolHeatStress="Int", PolColdStress="Int", TrColdStress="Int", ETadj="Int", CropType="Int", PlantMethod="Int",
+               LagAer="Int", PolHeatStress="Int", PolColdStress="Int", TrColdStress="Int", ETadj="Int", CropType="Int", PlantMethod="Int",
                CalendarType="Int", GDDmethod="Int", Determinant="Int", SwitchGDD="Int",
                Name="Opaque", planting_date="Opaque", harvest_date="Opaque", SwitchGDDType="Opaque")
 
@@ -87,12 +87,14 @@ def cc_growth_inversion(c, CCo, CCx, CGC, CDC, CCx0):
          props=("C17",), note="harness over the two real functions, both inlined from /repo source")
 
 # ----------------------------------------------------------------------------- aeration_stress
-declare_fields("thRZ", default="Real")
+declare_fields("RootZoneWater", default="Real")
 contract(SOL + "aeration_stress.py", "aeration_stress",
-         params=dict(NewCond_AerDays="Real", Crop_LagAer="Real", thRZ=OBJ("thRZ")),
-         requires=["NewCond_AerDays >= 0", "NewCond_AerDays <= Crop_LagAer", "Crop_LagAer >= 1", "Crop_LagAer <= 3 or NewCond_AerDays <= 3",
+         params=dict(NewCond_AerDays="Real", Crop_LagAer="Int", thRZ=OBJ("RootZoneWater")),
+         requires=["NewCond_AerDays >= 0", "NewCond_AerDays <= Crop_LagAer", "Crop_LagAer >= 1",
                    "thRZ.Aer < thRZ.S", "thRZ.Act <= thRZ.S"],
          returns=[("Ksa_Aer", "Real"), ("AerDays", "Real")],
-         ensures=[("C17.ksa_range", "0 <= Ksa_Aer and Ksa_Aer <= 1"),
+         ensures=[("C04.ksa_le_1", "Ksa_Aer <= 1"),
+                  # the factor 3 is hard-coded: for a lag above 3 days the coefficient goes negative (callers treat it like 0)
+                  ("C04.ksa_nonneg", "implies(Crop_LagAer <= 3 or NewCond_AerDays <= 3, 0 <= Ksa_Aer)"),
                   ("C04.aerdays_range", "0 <= AerDays and AerDays <= Crop_LagAer")],
          props=("C17", "C04", "C16"))
